@@ -89,6 +89,8 @@ func C01(ctx *core.Ctx, r *core.Report) {
 	c06RefineAppliesToTarget(ctx, r)
 	impliedCasePerNode(ctx, r)
 	c01SubmoduleMergeComplete(ctx, r)
+	c01AugmentUsesExpandedFirst(ctx, r)
+	c11InitializeMerges(ctx, r)
 	r.Count("instances:lost-update(read-modify-write of a field)", lostUpdate(ctx, r, scopeFuncs(ctx, "meta", "resolver.go", "compile.go", "builder.go", "core.go", "core_gen.go")))
 	r.Count("instances:textual-order-kept(sort calls examined)", textualOrderKept(ctx, r, scopeFuncs(ctx, "meta")))
 	// a refine (or any sibling) switched off by if-feature must not take the following ones with it
@@ -465,6 +467,7 @@ func C02(ctx *core.Ctx, r *core.Report) {
 	c02Inheritance(ctx, r)
 	c02MixinCoverage(ctx, r)
 	c02WhenPerNode(ctx, r)
+	c02AbsolutePathFromRoot(ctx, r)
 	c02RestrictedEnumKeepsValue(ctx, r)
 	r.Count("instances:append-aliasing(found)", appendAliasing(ctx, r, scopeFuncs(ctx, "meta")))
 	r.Count("instances:visited-guard-only", visitedGuardOnly(ctx, r, scopeFuncs(ctx, "meta")))
